@@ -27,15 +27,17 @@ def run(op, a):
         # identifiers of a mutable object follow its current field values: ask, edit, ask again
         m.nLockTime = (m.nLockTime + 1) % (1 << 32)
         res += [m.GetTxid(), m.GetHash()]
-        m.vin[0].nSequence = (m.vin[0].nSequence + 1) % (1 << 32)
+        if m.vin:
+            m.vin[0].nSequence = (m.vin[0].nSequence + 1) % (1 << 32)
         res += [m.GetTxid()]
         # an immutable transaction frozen from a mutable one (and asked for its ids) keeps them when
         # the source's inputs / outpoints / outputs are edited in place afterwards
         src = tx_from_val(a[0], mutable=True)
         frozen = CTransaction.from_tx(src)
         f0 = (frozen.GetTxid(), frozen.GetHash())
-        src.vin[0].prevout.n = (src.vin[0].prevout.n + 1) % (1 << 32)
-        src.vin[0].nSequence = (src.vin[0].nSequence + 1) % (1 << 32)
+        if src.vin:
+            src.vin[0].prevout.n = (src.vin[0].prevout.n + 1) % (1 << 32)
+            src.vin[0].nSequence = (src.vin[0].nSequence + 1) % (1 << 32)
         if src.vout:
             src.vout[0].nValue ^= 1
         f1 = (frozen.GetTxid(), frozen.GetHash())
